@@ -342,6 +342,16 @@ class BaseEMSurvey(ObjectBase, ABC):  # pylint: disable=too-many-public-methods
 
         :param entries: Metadata key value pairs.
         """
+        for key, value in entries.items():
+            if (
+                value is None
+                and key != "Property groups"
+                and key in self.default_metadata["EM Dataset"]
+            ):
+                raise KeyError(
+                    f"'{key}' is a required metadata entry; it cannot be removed."
+                )
+
         em_metadata = self.metadata.get("EM Dataset", {})
 
         for key, value in entries.items():
